@@ -281,6 +281,23 @@ def check_average(rec, viol, counts, classes, tol=1e-7):
             if abs(want.get(kk, 0.0) - have.get(kk, 0.0)) > tol:
                 bad.append("determinant %r %.6f, mean %.6f" % (kk, have.get(kk, 0.0), want.get(kk, 0.0)))
                 break
+        # rows: the average lists a partner no more often than some conformation does (one row holding the
+        # mean - not one row per conformation with a share of it)
+        def rows_by_label(g_):
+            out_ = {}
+            for t_, lst_ in g_["det"].items():
+                for d_ in lst_:
+                    out_[(t_, d_[2])] = out_.get((t_, d_[2]), 0) + 1
+            return out_
+        have_rows = rows_by_label(a)
+        most = {}
+        for g in gs:
+            for kk, c_ in rows_by_label(g).items():
+                most[kk] = max(most.get(kk, 0), c_)
+        counts["avr_determinant_rows_counted"] = counts.get("avr_determinant_rows_counted", 0) + sum(have_rows.values())
+        for kk, c_ in have_rows.items():
+            if c_ > most.get(kk, 0) and not bad:
+                bad.append("determinant %r is listed %d times, at most %d time(s) in any conformation" % (kk, c_, most.get(kk, 0)))
         if bad:
             viol.append({"cls": "avr-not-the-mean", "msg": "group %s present in %d of %d conformations: %s" % (
                 a["label"], n, len(names), "; ".join(bad[:3])), "detail": {"present": n, "of": len(names)}, "res": (k[0], k[1])})
